@@ -333,8 +333,10 @@ def no_underflow_fact(fa):
     return guards.cmp_matches(fa, "Le", lambda x: x == ("l", 2), lambda x: x == fld("valid_len"))  # n <= valid_len
 
 
-def run_r3(ctx, rule, reader_only=False):
+def run_r3(ctx, rule, reader_only=False, writer_only=False):
     facts = ctx.facts
+    if writer_only:
+        return _r3_writer(ctx, rule)
     # advance(n) panics (documented) when n exceeds the buffered length: *no* trusted field may have been written by
     # then -- a caught panic must leave window start and length as they were
     fa_ = facts.fns[[i for i in facts.fns if norm(i) == DR + "advance"][0]]
@@ -381,9 +383,32 @@ def run_r3(ctx, rule, reader_only=False):
             for e in st.events[idx[0] : idx[-1]]:
                 if e[0] == "call" and e[2][0] not in RING:
                     bad = (e[1], e[2][0])
+    # .. and the bytes are moved *before* the bookkeeping says so: a mover that can panic (range checks of copy_within,
+    # copy_from_slice, split_at_mut) behind the first rebasing store would, when caught, leave a window that points at
+    # bytes which were never moved there
+    MOVERS = ("copy_within", "copy_from_slice", "clone_from_slice", "split_at_mut", "split_at_mut_checked", "swap_with_slice", "rotate_left", "rotate_right", "drain", "extend_from_within")
+    late = None
+    nmove = 0
+    for p, cut, last in returning_paths(f):
+        st = PathExec(facts, f).run_path(p)
+        group = ("pos_of_buf", "pos_in_buf", "mark_in_buf")
+        idx = [i for i, e in enumerate(st.events) if e[0] == "store" and e[2][0][0] == "arg1" and e[2][0][1] and e[2][0][1][0] in group]
+        if len(idx) < 2:
+            continue
+        for i, e in enumerate(st.events):
+            if e[0] == "call" and e[2][0].rsplit("::", 1)[-1] in MOVERS:
+                nmove += 1
+                if i > idx[0]:
+                    late = (e[1], e[2][0])
+    rule.check(late is None and nmove > 0, "request_more/move-before-rebase", "the window's bytes are moved before the first rebasing store (a mover that panics must leave the old, consistent window behind)%s" % (" (%s behind the stores)" % short(late[1]) if late else "" if nmove else " (no move of the bytes found on a realigning path)"), f.loc(late[0]) if late else f.loc())
     rule.check(bad is None and npaths > 0, "request_more/rebase-atomic", "the rebasing stores (pos_of_buf, pos_in_buf, mark_in_buf) are not interleaved with calls that may unwind%s" % (" (call %s in between)" % short(bad[1]) if bad else ""), f.loc(bad[0]) if bad else f.loc())
     if reader_only:
         return
+    _r3_writer(ctx, rule)
+
+
+def _r3_writer(ctx, rule):
+    facts = ctx.facts
     # the writer's panicked flag brackets both sink calls
     for m in (DW + "flush_defer_err", DW + "write_all_defer_err_cold"):
         fn = facts.fns[[i for i in facts.fns if norm(i) == m][0]]
